@@ -149,3 +149,25 @@ package types
 //@   |   && decField("types.FetchNodeCredentialsInfo", "EncryptionPublicKeyType", ret.Bundle) == KEYTYPE_X25519
 //@   |   && (opts(opt).WithActivationToken == "" || !IsNil(opts(opt).WithRegistrationWrapper) ==>
 //@   |        decField("types.FetchNodeCredentialsInfo", "Nonce", ret.Bundle) == bytes(n.RegistrationNonce))
+
+// ---------------------------------------------------------------- Store methods (C12, C13, C08)
+//
+// storedRoot(s, r): stored root s carries root r's public part and window
+//@ pred storedRoot(s, r) := s != nil && s.Id == r.Id && bytes(s.PublicKeyPkix) == bytes(r.PublicKeyPkix)
+//@   | && bytes(s.CertificateDer) == bytes(r.CertificateDer) && s.PrivateKeyType == r.PrivateKeyType
+//@   | && tsTime(s.NotBefore) == tsTime(r.NotBefore) && tsTime(s.NotAfter) == tsTime(r.NotAfter)
+
+//@ func types.(*RootCertificates).Store
+//@   nopanic[*]
+//@   ensures[* stored] err == nil ==> r != nil && r.Current != nil && r.Next != nil && StHas("roots", "roots")
+//@   |   && storedRoot(StGet("roots", "roots").Current, r.Current) && storedRoot(StGet("roots", "roots").Next, r.Next)
+//@   |   && StGet("roots", "roots").Id == "roots"
+//@   ensures[* clear] err == nil && opts(opt).WithStorageWrapper == nil ==>
+//@   |   bytes(StGet("roots", "roots").Current.PrivateKeyPkcs8) == bytes(r.Current.PrivateKeyPkcs8)
+//@   |   && bytes(StGet("roots", "roots").Next.PrivateKeyPkcs8) == bytes(r.Next.PrivateKeyPkcs8)
+//@   |   && StGet("roots", "roots").WrappingKeyId == old(r.WrappingKeyId)
+//@   ensures[* failed] err != nil ==> StHas("roots", "roots") == old(StHas("roots", "roots")) && StGet("roots", "roots") == old(StGet("roots", "roots"))
+//@   ensures[* others] forall id String :: id != "roots" ==> StHas("roots", id) == old(StHas("roots", id)) && StGet("roots", id) == old(StGet("roots", id))
+//@   modifies StRoots, r.State
+//@   loop 0 unroll 2
+//@   loop 1 unroll 2
